@@ -1169,6 +1169,7 @@ int vorbis_encode_ctl(vorbis_info *vi,int number,void *arg){
     case OV_ECTL_LOWPASS_SET:
       {
         double *farg=(double *)arg;
+        if(*farg!=*farg)return(OV_EINVAL); /* NaN passes both clamps */
         hi->lowpass_kHz=*farg;
 
         if(hi->lowpass_kHz<2.)hi->lowpass_kHz=2.;
